@@ -219,7 +219,12 @@ CLAIMED = {
              "the trie does not give (branch_sound, via bgetD_sound); check_if_branch_exist(p) iff some stored key starts with p "
              "(exist_iff); get_trie_nodes = exactly the reachable nodes (trie_nodes_exact); a witness contains only trie nodes, is "
              "refused only when the prefix runs past a stored key, and answers get(k) for every k under the prefix (witness_*). "
-             "Tie: tuples returned, validity outcomes incl. exception classes on a corruption stream, against the model.",
+             "Raw level: the four functions AS WRITTEN over node hashes and the database (Model/BranchRaw.lean: parse_node(db[h]), "
+             "'h in db', generators) return, on every database storing a canonical trie, the encodings of what the tree-level "
+             "functions return (raw_exists, raw_get_branch, raw_trie_nodes, raw_witness, raw_blank; the first fuel bound for the "
+             "witness generator was machine-refuted: with an exhausted key it keeps descending to the right, depth = trie height). "
+             "Tie: tuples returned, validity outcomes incl. exception classes on a corruption stream, against the tree-level model "
+             "AND the raw-level transcription, the latter also on databases with one node removed and on older roots.",
         technique="Lean 4 proof (Layer-D reader vs tree induction, path-node inclusion lemmas) + correspondence check incl. forged branches",
         design_ref="6/C13"),
     "C09": dict(
